@@ -145,6 +145,21 @@ class World:
                 net.add_links([(O(u), O(l), O(v)) for u, l, v in op[1]])
                 for u, l, v in op[1]:
                     self.m_link(O(u), O(l), O(v))
+            elif k == "add_links_bad":
+                # a batch whose last entry is malformed: networkx has added the earlier edges when the error surfaces
+                try:
+                    net.add_links([(O(u), O(l), O(v)) for u, l, v in op[1]] + [(O(op[1][0][0]), O(op[1][0][1]))])
+                except Exception:  # noqa: BLE001
+                    pass
+                for u, l, v in op[1]:
+                    self.m_link(O(u), O(l), O(v))
+            elif k == "add_nodes_bad":
+                try:
+                    net.add_nodes([O(x) for x in op[1]] + [None])
+                except Exception:  # noqa: BLE001
+                    pass
+                for x in op[1]:
+                    self.m_node(O(x))
             elif k == "add_origin":
                 net.add_origin(O(op[1]), O(op[2]))
                 self.m_origin(O(op[1]), O(op[2]))
